@@ -41,7 +41,9 @@ class NonThreadedExecutor:
         self.refstack = deque()
         self.errorstack = None
         self.rolledback = deque()
-        self.rolledback_exc = None
+        # Failures in flight or being handled: [exception, stack length
+        # after its last rollback, nodes rolled back by it]
+        self.failures = []
         self.callstack = CallStack(self, maxdepth)
         self.is_executing = False
         self.is_formula_error_used = True
@@ -85,20 +87,28 @@ class NonThreadedExecutor:
 
         return value
 
+    def _take_rolledback(self):
+        """Keep the nodes rolled back by the exception that got out"""
+        for exc, _, nodes in self.failures:
+            if exc is self.excinfo[1]:
+                self.rolledback.extend(nodes)
+
     def _start_exec(self, node):
 
         self.excinfo = None
         self.errorstack = None
         self.is_executing = True
         self.rolledback.clear()
+        self.failures.clear()
 
         try:
             self.buffer = self._eval_formula(node)
         except:
             self.excinfo = sys.exc_info()
+            self._take_rolledback()
         finally:
             self.is_executing = False
-            self.rolledback_exc = None
+            self.failures.clear()
 
         assert not self.callstack
         assert not self.callstack.counter
@@ -166,6 +176,7 @@ class ThreadedExecutor(NonThreadedExecutor):
                         self.executor.initnode)
                 except:
                     self.executor.excinfo = sys.exc_info()
+                    self.executor._take_rolledback()
 
                 self.executor.is_executing = False
                 self.signal_start.clear()
@@ -176,6 +187,7 @@ class ThreadedExecutor(NonThreadedExecutor):
         self.excinfo = None
         self.errorstack = None
         self.rolledback.clear()
+        self.failures.clear()
         try:
             self.is_executing = True
             self.thread.signal_start.set()
@@ -214,7 +226,7 @@ class ThreadedExecutor(NonThreadedExecutor):
 
         finally:
             self.initnode = None
-            self.rolledback_exc = None
+            self.failures.clear()
 
 
 class CallStack(deque):
@@ -281,6 +293,7 @@ class CallStack(deque):
             # An ItemSpace is kept by its parent: its node is kept as well
             # (it could not be deleted otherwise); the callers stay tainted
             self.taint = len(self) - 1
+            self._drop_failures(len(self) - 1)
 
         node = deque.pop(self)
         self.idxstack.pop()
@@ -326,6 +339,7 @@ class CallStack(deque):
         self.idxstack.pop()
         self.counter -= 1
         self.taint = min(self.taint, len(self))
+        self._drop_failures(len(self))
 
         graph = node[OBJ].model.tracegraph
         if graph.has_node(node):
@@ -339,17 +353,30 @@ class CallStack(deque):
 
         return node
 
+    def _drop_failures(self, stacklen, keep=None):
+        """Forget the failures whose formula is not on the stack anymore"""
+        failures = self.executor.failures
+        if failures:
+            failures[:] = [f for f in failures
+                           if f[1] <= stacklen or f is keep]
+
     def rollback(self):
         node = deque.pop(self)
         self.idxstack.pop()
         self.taint = len(self)
         exc = sys.exc_info()[1]
-        if exc is not self.executor.rolledback_exc:
-            # Nodes rolled back by another exception belong to a failure
-            # that a formula caught; they are not part of this traceback
-            self.executor.rolledback.clear()
-            self.executor.rolledback_exc = exc
-        self.executor.rolledback.append(node)
+        # Nodes rolled back by another exception belong to a failure that
+        # a formula caught or is passing on (it may evaluate cells while
+        # it does): they are not part of the traceback of this one
+        for failure in reversed(self.executor.failures):
+            if failure[0] is exc:
+                break
+        else:
+            failure = [exc, 0, deque()]
+            self.executor.failures.append(failure)
+        failure[1] = len(self)
+        failure[2].append(node)
+        self._drop_failures(len(self), failure)
         self.counter -= 1
         cells = node[OBJ]
 
